@@ -12,7 +12,7 @@ import logging
 
 import kopf
 import vkopf
-from vkopf.driver_api import Ob
+from vkopf.driver_api import Ob, split
 from vkopf.symloop import SymLoop, Deadlock, Diverged, Livelock, cancel_all_others
 from vkopf.world import World, base_body, FIN, LHC, PLURAL, make_resource
 
@@ -196,7 +196,7 @@ STEPS = ['label_off', 'label_on', 'edit', 'mark_deleted', 'gone_unmarked', 'paus
 def run_history(kind, steps, gaps, timer_kw=None, horizon=50, ties=()):
     """kind: 'daemon' | 'timer'. Returns (log, errors)."""
     obj = base_body(labels={'run': 'yes'})
-    w = World(obj)
+    w = World(obj, tmode='symbolic')
     loop = w.loop
     log = []
     live = [0, 0]
